@@ -299,12 +299,59 @@ def analyse(repo):
         "bin_drifts = drifts - self._tph_shifts", "self._tph_shifts = drifts", "return bin_drifts"])
     text = {m: ast.unparse(ast.Module(body=_strip_doc(meths[m][0].body), type_ignores=[]))
             for m in ("update_dm", "update_period", "_get_dmdelays", "_get_pdelays")}
+    holes["hdr_reads"], holes["hdr_writes"] = _header_frame(meths)
     return holes, text
+
+
+HDR_MODEL_FIELDS = ("fch1", "foff", "nchans", "tobs")     # the fields of Model/C17_Header.v (hdrv)
+
+
+def _is_hdr(e):
+    """`self.header` or `self._hdr`"""
+    return (isinstance(e, ast.Attribute) and isinstance(e.value, ast.Name) and e.value.id == "self" and e.attr in ("header", "_hdr"))
+
+
+def _header_frame(meths):
+    """what the four update methods do with the header: (sorted fields read, list of possible modifications).
+    A modification is: a store / augmented store / del of `self.header.X` (-> "X"), rebinding self.header / self._hdr
+    (-> "<rebind>"), calling a method of the header (-> "<call m>"), or letting the header object escape as an argument or an
+    alias (-> "<escape>").  Fields read must be fields of the model's header record (fail closed)."""
+    reads, writes = set(), []
+    for name in ("update_dm", "update_period", "_get_dmdelays", "_get_pdelays"):
+        fn = meths[name][0]
+        parents = {}
+        for n in ast.walk(fn):
+            for c in ast.iter_child_nodes(n):
+                parents[c] = n
+        for n in ast.walk(fn):
+            if not _is_hdr(n):
+                continue
+            if isinstance(n.ctx, (ast.Store, ast.Del)):
+                writes.append("<rebind>")
+                continue
+            par = parents.get(n)
+            if isinstance(par, ast.Attribute) and par.value is n:
+                gp = parents.get(par)
+                if isinstance(par.ctx, (ast.Store, ast.Del)):
+                    writes.append(par.attr)
+                elif isinstance(gp, ast.AugAssign) and gp.target is par:
+                    writes.append(par.attr)
+                elif isinstance(gp, ast.Call) and gp.func is par:
+                    writes.append(f"<call {par.attr}>")
+                elif isinstance(gp, (ast.Attribute, ast.Subscript)) and gp.value is par and isinstance(gp.ctx, (ast.Store, ast.Del)):
+                    writes.append(par.attr)          # self.header.X.y = ... / self.header.X[k] = ...
+                else:
+                    if par.attr not in HDR_MODEL_FIELDS:
+                        raise Unsupported(f"{name}: reads header field `{par.attr}`, which the model's header record does not have")
+                    reads.add(par.attr)
+            else:
+                writes.append("<escape>")            # the header object itself is passed on / aliased
+    return sorted(reads), writes
 
 
 def gen_foldrefs(repo="/repo"):
     head = ["(* GENERATED by tools/py2coq/gen_c17.py from sigpyproc/foldedcube.py -- do not edit *)",
-            "From Coq Require Import Bool.", ""]
+            "From Coq Require Import Bool String List.", "Import ListNotations.", ""]
     try:
         holes, text = analyse(repo)
     except Unsupported as e:
@@ -324,6 +371,12 @@ def gen_foldrefs(repo="/repo"):
         "(* _get_dmdelays:  the (squeezed) result of params.compute_dmdelays is made one-dimensional again before it is",
         "   stored in _fph_shifts and indexed by sub-band *)",
         f"Definition dm_drifts_made_1d : bool := {b(holes['dm_1d'])}.",
+        "",
+        "(* Frame of update_dm / update_period / _get_dmdelays / _get_pdelays on the observational metadata: the header fields",
+        "   they read, and every place where they could modify the header (store to a field, rebinding, method call on the",
+        "   header, the header object escaping).  Props/C17.v proves from [header_writes = nil] that no history changes it. *)",
+        "Definition header_fields_read : list string := [" + "; ".join(f'"{x}"' for x in holes["hdr_reads"]) + "]%string.",
+        "Definition header_writes : list string := [" + "; ".join(f'"{x}"' for x in holes["hdr_writes"]) + "]%string.",
         "",
         "(* The statements the hand model Model/C17_FoldedCube.v follows (checked statement by statement by the generator):"]
     for m, t in text.items():
